@@ -374,6 +374,51 @@ def oracle_no_aliasing(ck, rng):
                 ck.violation(what=f"{name}: {bad}", inp={"operation": name, "changed": who, "tags": tags}, key={"site": "aliasing", "op": name.split("(")[0]}, oracle="no_aliasing")
 
 
+def oracle_feature_names(ck, rng):
+    """feature names that contain one another, or that look like the library's temporary columns, are ordinary names: drop_features removes
+    exactly the named columns (and rejects unknown ones), cutby / group_by keep every feature of every row"""
+    import polars as pl
+    from acryo import Molecules
+    n = 8
+    tags = list(range(1, n + 1))
+    m0 = make(tags, [t % 3 for t in tags])
+    extra = {"id": [10 * t for t in tags], "pf-id": [t % 2 for t in tags], "score": [t / 8 for t in tags], "score_std": [t / 80 for t in tags],
+             ".category": [f"c{t}" for t in tags], ".index": [100 + t for t in tags], "cat": [t % 4 for t in tags]}
+    m = m0.with_features([pl.Series(k_, v_) for k_, v_ in extra.items()])
+    fails = []
+    try:
+        base_cols = list(m.features.columns)
+        for drop in ("pf-id", "score_std", ".category", "id", ["score_std", "pf-id"], ("id",)):
+            names = [drop] if isinstance(drop, str) else list(drop)
+            out = m.drop_features(drop) if isinstance(drop, str) or isinstance(drop, list) else m.drop_features(*drop)
+            want = [c for c in base_cols if c not in names]
+            if list(out.features.columns) != want:
+                fails.append(f"drop_features({drop!r}) left columns {list(out.features.columns)} instead of {want}")
+            elif not out.features.equals(m.features.select(want)) or decode(out.drop_features([c for c in want if c in extra]))[0] != decode(m0)[0]:
+                fails.append(f"drop_features({drop!r}) changed the values of the remaining features")
+        try:
+            m.drop_features("no-such-feature")
+            fails.append("drop_features of an unknown name accepted")
+        except Exception:  # noqa
+            pass
+        pieces = []
+        for edges, sub in m.drop_features("nul").cutby("f", [float(b) for b in BINS]):
+            if list(sub.features.columns) != [c for c in base_cols if c != "nul"]:
+                fails.append(f"cutby group has columns {list(sub.features.columns)}")
+            pieces.append(sub)
+        cat_ = Molecules.concat(pieces)
+        if sorted(cat_.features["tag"].to_list()) != tags or not cat_.features.sort("tag").equals(m.drop_features("nul").features.sort("tag")):
+            fails.append("concatenating the cutby groups does not give back the rows of the input (with a feature named '.category')")
+        for key, sub in m.group_by("cat"):
+            if list(sub.features.columns) != base_cols or not sub.features.equals(m.features.filter(pl.col("cat") == key)):
+                fails.append(f"group_by group {key} is not the selected rows of the input")
+    except Exception as e:  # noqa
+        fails.append(f"raised {type(e).__name__}: {e}")
+    ck.oracle_count("feature_names", 1, 1)
+    for f in fails[:3]:
+        ck.violation(what=f, inp={"features": list(extra)}, key={"site": "feature-names", "symptom": f[:30]}, oracle="feature_names")
+
+
 def run(ck: common.Check):
     ck.design_ref = "DESIGN.md §6 C12"
     ck.trusted_base = TB
@@ -387,6 +432,7 @@ def run(ck: common.Check):
     corr_histories(ck, rng)
     oracle_rejects(ck, rng)
     oracle_no_aliasing(ck, np.random.default_rng(ck.seed + 12012))
+    oracle_feature_names(ck, np.random.default_rng(ck.seed + 12112))
 
 
 def replay(data):
